@@ -1,7 +1,7 @@
 #!/bin/bash
 # usage: mutant.sh <patch-file> <ID> [extra check args]  — applies a patch to /repo, runs the quick check, reverts.
 set -u
-patch="$1"; id="$2"; shift 2
+patch="$(readlink -f "$1")"; id="$2"; shift 2
 cd /repo || exit 2
 if ! git diff --quiet; then echo "repo dirty, refusing"; exit 2; fi
 git apply "$patch" || { echo "patch does not apply"; exit 2; }
